@@ -96,6 +96,9 @@ impl UBig {
         } else if let Some(hex) = src.strip_prefix("0x") {
             UBig::from_str_radix_no_sign(hex, 16).map(|v| (v, 16))
         } else {
+            if !radix::is_radix_valid(default_radix) {
+                return Err(ParseError::UnsupportedRadix);
+            }
             UBig::from_str_radix_no_sign(src, default_radix).map(|v| (v, default_radix))
         }
     }
